@@ -174,4 +174,13 @@ public final class VerifOps {
         int o = 2 * i(off);
         return new StringValue(x.substring(0, o) + y + x.substring(o + y.length()));
     }
+
+    // BitAt(h, i): bit i (0 = most significant bit of the first byte) of the byte string h
+    @TLAPlusOperator(identifier = "BitAt", module = "Hex", warn = false)
+    public static Value bitAt(Value h, Value idx) {
+        String x = str(h);
+        int k = i(idx);
+        int nib = Character.digit(x.charAt(k / 4), 16);
+        return IntValue.gen((nib >> (3 - (k % 4))) & 1);
+    }
 }
